@@ -95,7 +95,7 @@ def run(c):
     r2 = c.tlc("KeySecret", "KeySecret_asfound.cfg", workers=2, timeout=120, expect_ok=False)
     c.extra["design_quoting_key_in_errors_leaks"] = bool(r2.invariant_violated)
     name = "c12_rig"
-    d0 = os.path.join(util.BUILD, "run", name)
+    d0 = os.path.join(util.RUNDIR, name)
     status_dir = os.path.join(d0, "logs")
     phases = []
     steps = [plan("GET /secure-channel/status", 200, status_doc(None)),
